@@ -50,6 +50,10 @@ Inv_Between == IsSteep \/ ((~RLt(c.t, c.x[1]) /\ ~RLt(c.x[Len(c.x)], c.t)) =>
                      v == ISpec(c.x, c.y, c.t, c.mode).v IN
                  RLe(RMin(c.y[i], c.y[i + 1]), v) /\ RLe(v, RMax(c.y[i], c.y[i + 1])))
 
+\* rescaling the abscissa axis (knots and target alike) by a positive factor changes nothing
+ScaleSeq(xs, f) == [i \in 1..Len(xs) |-> RMul(xs[i], f)]
+Inv_ScaleInvariant == (~IsSteep /\ c.fam = "small") => \A f \in {R(2), <<1, 3>>} :
+                         ISpec(ScaleSeq(c.x, f), c.y, RMul(c.t, f), c.mode) = ISpec(c.x, c.y, c.t, c.mode)
 ModeJ == [kind |-> c.mode.kind, left |-> RJ(c.mode.left), right |-> RJ(c.mode.right)]
 EmitSteep == PrintT(<<"CASE", ToJson([fam |-> "steep", x |-> RSeqJ([k \in 1..5 |-> R(k - 1)]),
                                       y |-> [k \in 1..5 |-> [n |-> c.y[k][1], d |-> 1, e2 |-> c.y[k][2]]],
